@@ -41,11 +41,33 @@ theorem viewPoint_congr (it it' : SimpleIter) (hp : it'.pc = it.pc) (hi : it'.in
 
 /-! ## 2. the queue reader: `peek`, `dropN`, `popPoint`, `popBatch` -/
 
-/-- the `i`-th point across the queues (without popping) -/
-def QR.peek (q : QR) (i : Nat) : List Value := q.queues.map (fun l => (l.drop i).headD (.integer 0))
+/-
+Records of zero bit size are constants of the prototype (`constOf`) and are not queued (unless the cloud
+has no other records, `QR.allConstant`).  `front`/`pop1` are the point `popPoint` hands out and the queue
+reader it leaves behind; `dropN`/`peek` iterate them.  Explicit forms (queues and prototype of equal length):
+`QR.dropN_of_allConstant`, `QR.dropN_of_not_allConstant`, `QR.peek_of_allConstant`,
+`QR.peek_of_not_allConstant`.
+-/
+
+/-- the point `popPoint` hands out: the constant of a constant record, the head of the queue otherwise -/
+def QR.front (q : QR) : List Value :=
+  if q.allConstant then q.queues.map (fun l => l.headD (.integer 0))
+  else (q.proto.zip q.queues).map (fun (rec, qu) => match constOf rec.dt with
+        | some v => v
+        | none => qu.headD (.integer 0))
+
+/-- the queue reader `popPoint` leaves behind -/
+def QR.pop1 (q : QR) : QR :=
+  if q.allConstant then { q with queues := q.queues.map List.tail }
+  else { q with queues := (q.proto.zip q.queues).map (fun (rec, qu) => if (constOf rec.dt).isSome then qu else qu.tail) }
 
 /-- the queue reader after `n` points have been popped -/
-def QR.dropN (q : QR) (n : Nat) : QR := { q with queues := q.queues.map (List.drop n) }
+def QR.dropN (q : QR) : Nat → QR
+  | 0 => q
+  | n + 1 => q.pop1.dropN n
+
+/-- the `i`-th point across the queues (without popping) -/
+def QR.peek (q : QR) (i : Nat) : List Value := (q.dropN i).front
 
 /-- the first `n` raw points in the queues -/
 def QR.rawPoints (q : QR) (n : Nat) : List (List Value) := (List.range n).map q.peek
@@ -72,84 +94,207 @@ theorem minList_eq_none {l : List Nat} : minList l = none ↔ l = [] := by
   | nil => simp [minList]
   | cons x xs => simp only [minList]; split <;> simp
 
-/-- `available ≥ n` (n ≥ 1) iff there is a queue and all queues hold at least `n` items -/
-theorem QR.le_available {q : QR} {n : Nat} (hn : 1 ≤ n) :
-    n ≤ q.available ↔ q.queues ≠ [] ∧ ∀ l ∈ q.queues, n ≤ l.length := by
-  unfold QR.available
-  cases h : minList (q.queues.map List.length) with
-  | none =>
-    have := minList_eq_none.1 h
-    simp at this
-    simp [this]; omega
-  | some m =>
-    have hne : q.queues ≠ [] := by
-      intro h0; rw [h0] at h; simp [minList] at h
-    simp [minList_ge_sv h, hne]
-
-theorem QR.available_dropN (q : QR) (n : Nat) : (q.dropN n).available = q.available - n := by
-  unfold QR.available QR.dropN
-  simp only [List.map_map]
-  generalize q.queues = qs
-  induction qs with
+theorem minList_map_pred (l : List Nat) : minList (l.map (· - 1)) = (minList l).map (· - 1) := by
+  induction l with
   | nil => simp [minList]
-  | cons l ls ih =>
-    simp only [List.map_cons, minList, Function.comp_apply, List.length_drop]
-    cases h : minList (List.map List.length ls) with
+  | cons x xs ih =>
+    simp only [List.map_cons, minList, ih]
+    cases minList xs with
+    | none => simp
+    | some m => simp; omega
+
+@[simp] theorem QR.pop1_proto (q : QR) : q.pop1.proto = q.proto := by
+  unfold QR.pop1; split <;> rfl
+
+@[simp] theorem QR.pop1_allConstant (q : QR) : q.pop1.allConstant = q.allConstant := by
+  simp [QR.allConstant]
+
+@[simp] theorem QR.dropN_proto (q : QR) (n : Nat) : (q.dropN n).proto = q.proto := by
+  induction n generalizing q with
+  | zero => rfl
+  | succ n ih => simp [QR.dropN, ih]
+
+theorem sv_zip_map_snd_filter {α β γ} (f : α → β → β) (p : α → Bool) (g : β → γ) (h : β → β) (xs : List α) (ys : List β)
+    (hf : ∀ a b, p a = true → f a b = h b) :
+    ((xs.zip ((xs.zip ys).map (fun x => f x.1 x.2))).filter (fun x => p x.1)).map (fun x => g x.2)
+      = (((xs.zip ys).filter (fun x => p x.1)).map (fun x => g (h x.2))) := by
+  induction xs generalizing ys with
+  | nil => simp
+  | cons x xs ih =>
+    cases ys with
+    | nil => simp
+    | cons y ys =>
+      simp only [List.zip_cons_cons, List.map_cons, List.filter_cons]
+      split
+      · rename_i hp; simp [hf x y hp, ih]
+      · exact ih ys
+
+/-- popping one point shortens every counted queue by one -/
+theorem QR.countedLengths_pop1 (q : QR) : q.pop1.countedLengths = q.countedLengths.map (· - 1) := by
+  unfold QR.countedLengths
+  rw [QR.pop1_allConstant, QR.pop1_proto]
+  split
+  · rename_i h; simp [QR.pop1, h, List.map_map, Function.comp_def]
+  · rename_i h
+    simp only [QR.pop1, h, Bool.false_eq_true, if_false]
+    have := sv_zip_map_snd_filter (fun (rec : Record) (qu : List Value) => if (constOf rec.dt).isSome then qu else qu.tail)
+      (fun rec => (constOf rec.dt).isNone) List.length List.tail q.proto q.queues
+      (by intro a b hp; cases hc : constOf a.dt <;> simp_all)
+    simp only [List.map_map, Function.comp_def, List.length_tail] at this ⊢
+    exact this
+
+/-- `available ≥ n` (n ≥ 1) iff there is a queue, some queue counts, and all counted queues hold at
+    least `n` items -/
+theorem QR.le_available {q : QR} {n : Nat} (hn : 1 ≤ n) :
+    n ≤ q.available ↔ q.queues ≠ [] ∧ q.countedLengths ≠ [] ∧ ∀ x ∈ q.countedLengths, n ≤ x := by
+  unfold QR.available
+  by_cases hq : q.queues = []
+  · simp [hq]; omega
+  · have : q.queues.isEmpty = false := by cases h : q.queues <;> simp_all
+    simp only [this, Bool.false_eq_true, if_false]
+    cases h : minList q.countedLengths with
     | none =>
       have := minList_eq_none.1 h
-      simp at this; subst this; simp [minList]
+      simp [this]; omega
     | some m =>
-      rw [h] at ih
-      cases h' : minList (List.map (List.length ∘ List.drop n) ls) with
-      | none =>
-        have := minList_eq_none.1 h'
-        simp at this; subst this; simp [minList] at h
-      | some m' =>
-        rw [h'] at ih; simp at ih; simp; omega
+      have hne : q.countedLengths ≠ [] := by
+        intro h0; rw [h0] at h; simp [minList] at h
+      simp [minList_ge_sv h, hne, hq]
 
-theorem QR.dropN_zero (q : QR) : q.dropN 0 = q := by
-  have : List.drop (α := Value) 0 = id := by funext l; simp
-  cases q; simp [QR.dropN, this]
+theorem sv_getD_map_pred (o : Option Nat) : (o.map (· - 1)).getD 0 = o.getD 0 - 1 := by
+  cases o <;> simp
+
+theorem QR.available_pop1 (q : QR) : q.pop1.available = q.available - 1 := by
+  unfold QR.available
+  rw [QR.countedLengths_pop1, minList_map_pred, sv_getD_map_pred]
+  by_cases hq : q.queues = []
+  · have : q.pop1.queues = [] := by unfold QR.pop1; split <;> simp [hq]
+    simp [hq, this]
+  · have hqe : q.queues.isEmpty = false := by cases h : q.queues <;> simp_all
+    simp only [hqe, Bool.false_eq_true, if_false]
+    split
+    · rename_i hp
+      unfold QR.pop1 at hp
+      split at hp
+      · simp at hp; exact absurd hp hq
+      · rename_i hc
+        simp at hp
+        have : q.countedLengths = [] := by
+          unfold QR.countedLengths
+          simp only [hc, Bool.false_eq_true, if_false]
+          rcases hp with hp | hp
+          · simp [hp]
+          · exact absurd hp hq
+        simp [this, minList]
+    · rfl
+
+theorem QR.available_dropN (q : QR) (n : Nat) : (q.dropN n).available = q.available - n := by
+  induction n generalizing q with
+  | zero => rfl
+  | succ n ih => rw [QR.dropN, ih, QR.available_pop1]; omega
+
+theorem QR.dropN_zero (q : QR) : q.dropN 0 = q := rfl
+
+theorem QR.dropN_one (q : QR) : q.dropN 1 = q.pop1 := rfl
 
 theorem QR.dropN_dropN (q : QR) (a b : Nat) : (q.dropN a).dropN b = q.dropN (a + b) := by
-  simp [QR.dropN, List.map_map, Function.comp_def]
+  induction a generalizing q with
+  | zero => simp [QR.dropN]
+  | succ a ih => rw [QR.dropN, ih, Nat.add_right_comm, QR.dropN]
 
 theorem QR.peek_dropN (q : QR) (a i : Nat) : (q.dropN a).peek i = q.peek (a + i) := by
-  simp [QR.dropN, QR.peek, List.map_map, Function.comp_def]
+  simp [QR.peek, QR.dropN_dropN]
 
-/-- `popPoint` succeeds when a point is available, returns the heads and leaves the tails -/
+/-- `popPoint` succeeds when a point is available, returns the front point and leaves the rest -/
 theorem QR.popPoint_of_available {q : QR} (h : 1 ≤ q.available) :
     q.popPoint = some (q.peek 0, q.dropN 1) := by
-  have ⟨_, hl⟩ := (QR.le_available (Nat.le_refl 1)).1 h
+  have ⟨_, _, hl⟩ := (QR.le_available (Nat.le_refl 1)).1 h
+  unfold QR.countedLengths at hl
   unfold QR.popPoint
-  have : q.queues.any List.isEmpty = false := by
-    rw [List.any_eq_false]
-    intro l hl'
-    have := hl l hl'
-    cases l <;> simp_all
-  simp [this, QR.peek, QR.dropN]
+  split
+  · rename_i hc
+    simp only [hc, if_true] at hl
+    have : q.queues.any List.isEmpty = false := by
+      rw [List.any_eq_false]
+      intro l hl'
+      have := hl l.length (List.mem_map_of_mem hl')
+      cases l <;> simp_all
+    simp [this, QR.peek, QR.dropN, QR.front, QR.pop1, hc]
+  · rename_i hc
+    simp only [hc, Bool.false_eq_true, if_false] at hl
+    have : (q.proto.zip q.queues).any (fun (rec, qu) => (constOf rec.dt).isNone && qu.isEmpty) = false := by
+      rw [List.any_eq_false]
+      rintro ⟨rec, l⟩ hl'
+      by_cases hn : (constOf rec.dt).isNone = true
+      · have := hl l.length (by
+          simp only [List.mem_map, List.mem_filter]
+          exact ⟨(rec, l), ⟨hl', hn⟩, rfl⟩)
+        cases l <;> simp_all
+      · simp [hn]
+    simp [this, QR.peek, QR.dropN, QR.front, QR.pop1, hc]
+    intro a b _; cases constOf a.dt <;> rfl
 
-/-- `popPoint` fails iff some queue is empty; it succeeds iff a point is available or there are no
-    queues at all (an empty prototype: `available = 0`, and `popPoint` returns the empty point) -/
+/-- `popPoint` fails iff some counted queue is empty; it succeeds iff a point is available, or there
+    are no queues at all, or no queue counts (an empty prototype: `available = 0`, and `popPoint`
+    returns the empty point) -/
 theorem QR.popPoint_isSome_iff (q : QR) :
-    q.popPoint.isSome ↔ (1 ≤ q.available ∨ q.queues = []) := by
+    q.popPoint.isSome ↔ (1 ≤ q.available ∨ q.queues = [] ∨ q.countedLengths = []) := by
   constructor
   · intro h
+    by_cases hq : q.queues = []
+    · exact .inr (.inl hq)
+    by_cases hcl : q.countedLengths = []
+    · exact .inr (.inr hcl)
+    left
+    rw [QR.le_available (Nat.le_refl 1)]
+    refine ⟨hq, hcl, ?_⟩
     unfold QR.popPoint at h
+    unfold QR.countedLengths
     split at h
-    · simp at h
-    · rename_i hany
-      by_cases hq : q.queues = []
-      · exact .inr hq
-      · left
-        rw [QR.le_available (Nat.le_refl 1)]
-        refine ⟨hq, fun l hl => ?_⟩
+    · rename_i hc
+      simp only [hc, if_true]
+      split at h
+      · simp at h
+      · rename_i hany
         simp only [Bool.not_eq_true, List.any_eq_false] at hany
+        intro x hx
+        obtain ⟨l, hl, rfl⟩ := List.mem_map.1 hx
         have := hany l hl
         cases l <;> simp_all
-  · rintro (h | h)
+    · rename_i hc
+      simp only [hc, Bool.false_eq_true, if_false]
+      dsimp only at h
+      split at h
+      · simp at h
+      · rename_i hany
+        simp only [Bool.not_eq_true, List.any_eq_false] at hany
+        intro x hx
+        simp only [List.mem_map, List.mem_filter] at hx
+        obtain ⟨⟨rec, l⟩, ⟨hl, hn⟩, rfl⟩ := hx
+        have := hany (rec, l) hl
+        cases l <;> simp_all
+  · rintro (h | h | h)
     · simp [QR.popPoint_of_available h]
-    · simp [QR.popPoint, h]
+    · unfold QR.popPoint; split <;> simp [h]
+    · unfold QR.popPoint
+      unfold QR.countedLengths at h
+      split
+      · rename_i hc
+        simp only [hc, if_true] at h
+        simp at h
+        simp [h]
+      · rename_i hc
+        simp only [hc, Bool.false_eq_true, if_false] at h
+        have : (q.proto.zip q.queues).any (fun (rec, qu) => (constOf rec.dt).isNone && qu.isEmpty) = false := by
+          rw [List.any_eq_false]
+          rintro ⟨rec, l⟩ hl'
+          by_cases hn : (constOf rec.dt).isNone = true
+          · have : (rec, l) ∈ (q.proto.zip q.queues).filter (fun x => (constOf x.1.dt).isNone) :=
+              List.mem_filter.2 ⟨hl', hn⟩
+            simp at h
+            exact absurd (by simpa using hn) (h rec l hl')
+          · simp [hn]
+        simp [this]
 
 theorem QR.popPoint_available {q q' : QR} {vs} (h : 1 ≤ q.available) (hp : q.popPoint = some (vs, q')) :
     q'.available + 1 = q.available ∧ vs = q.peek 0 ∧ q' = q.dropN 1 := by
@@ -158,11 +303,95 @@ theorem QR.popPoint_available {q q' : QR} {vs} (h : 1 ≤ q.available) (hp : q.p
   obtain ⟨rfl, rfl⟩ := hp
   simp [QR.available_dropN]; omega
 
+/-! explicit forms of `dropN` and `peek` (the prototype and the queues have equal lengths in every
+    reachable state: `QR.new`, `advance` and `popPoint` keep it) -/
+
+theorem sv_zip_zip_map {α β γ} (f : α → β → β) (g : α × β → γ) (xs : List α) (ys : List β) :
+    (xs.zip ((xs.zip ys).map (fun x => f x.1 x.2))).map g = (xs.zip ys).map (fun x => g (x.1, f x.1 x.2)) := by
+  induction xs generalizing ys with
+  | nil => simp
+  | cons x xs ih =>
+    cases ys with
+    | nil => simp
+    | cons y ys => simp [ih]
+
+theorem sv_zip_map_snd_of_le {α β} (xs : List α) (ys : List β) (h : ys.length ≤ xs.length) :
+    (xs.zip ys).map (·.2) = ys := by
+  induction xs generalizing ys with
+  | nil => cases ys <;> simp_all
+  | cons x xs ih =>
+    cases ys with
+    | nil => simp
+    | cons y ys => simp at h; simp [ih ys h]
+
+/-- all-constant cloud: every queue loses `n` values -/
+theorem QR.dropN_of_allConstant (q : QR) (n : Nat) (hc : q.allConstant = true) :
+    q.dropN n = { q with queues := q.queues.map (List.drop n) } := by
+  induction n generalizing q with
+  | zero =>
+    have : List.drop (α := Value) 0 = id := by funext l; simp
+    cases q; simp [QR.dropN, this]
+  | succ n ih =>
+    rw [QR.dropN, ih _ (by simpa using hc)]
+    simp [QR.pop1, hc, List.map_map, Function.comp_def]
+
+/-- otherwise: the queues of the sized records lose `n` values, those of the constant records are untouched -/
+theorem QR.dropN_of_not_allConstant (q : QR) (n : Nat) (hc : q.allConstant = false)
+    (hlen : q.queues.length ≤ q.proto.length) :
+    q.dropN n = { q with queues :=
+      (q.proto.zip q.queues).map (fun (rec, qu) => if (constOf rec.dt).isSome then qu else qu.drop n) } := by
+  induction n generalizing q with
+  | zero =>
+    have := sv_zip_map_snd_of_le q.proto q.queues hlen
+    cases q; simp_all [QR.dropN]
+  | succ n ih =>
+    have hlen' : q.pop1.queues.length ≤ q.pop1.proto.length := by
+      simp [QR.pop1, hc]; omega
+    rw [QR.dropN, ih _ (by simpa using hc) hlen']
+    simp only [QR.pop1, hc, Bool.false_eq_true, if_false]
+    congr 1
+    rw [sv_zip_zip_map (fun (rec : Record) (qu : List Value) => if (constOf rec.dt).isSome then qu else qu.tail)]
+    apply List.map_congr_left
+    rintro ⟨rec, qu⟩ _
+    cases constOf rec.dt <;> simp
+
+/-- all-constant cloud: the `i`-th point is made of the `i`-th entries of the queues -/
+theorem QR.peek_of_allConstant (q : QR) (i : Nat) (hc : q.allConstant = true) :
+    q.peek i = q.queues.map (fun l => (l.drop i).headD (.integer 0)) := by
+  have hc' : (q.dropN i).allConstant = true := by simpa [QR.allConstant] using hc
+  rw [QR.peek, QR.front, if_pos hc', QR.dropN_of_allConstant q i hc]
+  simp [List.map_map, Function.comp_def]
+
+/-- otherwise: the constant of a constant record, the `i`-th entry of the queue of a sized record -/
+theorem QR.peek_of_not_allConstant (q : QR) (i : Nat) (hc : q.allConstant = false)
+    (hlen : q.queues.length ≤ q.proto.length) :
+    q.peek i = (q.proto.zip q.queues).map (fun (rec, qu) => match constOf rec.dt with
+        | some v => v
+        | none => (qu.drop i).headD (.integer 0)) := by
+  have hc' : (q.dropN i).allConstant = false := by simpa [QR.allConstant] using hc
+  rw [QR.peek, QR.front, hc', QR.dropN_of_not_allConstant q i hc hlen]
+  simp only [Bool.false_eq_true, if_false]
+  rw [sv_zip_zip_map (fun (rec : Record) (qu : List Value) => if (constOf rec.dt).isSome then qu else qu.drop i)]
+  apply List.map_congr_left
+  rintro ⟨rec, qu⟩ _
+  cases constOf rec.dt <;> simp
 
 theorem QR.rawPoints_succ (q : QR) (n : Nat) :
     q.rawPoints (n + 1) = q.peek 0 :: (q.dropN 1).rawPoints n := by
   simp [QR.rawPoints, List.range_succ_eq_map, List.map_map, Function.comp_def, QR.peek_dropN,
     Nat.add_comm]
+
+/-- non-vacuity: a sized record next to a constant one (`integer 7 7`, empty queue): two points are
+    available, the constant is filled in, only the sized queue is popped -/
+def exConstQ : QR :=
+  ⟨[⟨.cartesianX, .integer 0 255⟩, ⟨.rowIndex, .integer 7 7⟩], [], [[.integer 1, .integer 2], []]⟩
+
+example : exConstQ.allConstant = false ∧ exConstQ.available = 2 ∧
+    exConstQ.peek 0 = [.integer 1, .integer 7] ∧ exConstQ.peek 1 = [.integer 2, .integer 7] ∧
+    exConstQ.popPoint.map (·.1) = some [.integer 1, .integer 7] ∧
+    exConstQ.popPoint.map (·.2.queues) = some [[.integer 2], []] ∧
+    (exConstQ.dropN 1).queues = [[.integer 2], []] ∧ (exConstQ.dropN 2).available = 0 := by
+  decide +kernel
 
 theorem QR.length_rawPoints (q : QR) (n : Nat) : (q.rawPoints n).length = n := by
   simp [QR.rawPoints]
